@@ -250,9 +250,12 @@ def run_witness(prop, w, root):
                 files = sorted({l[6:].strip() for l in pfh if l.startswith("+++ b/")})
         else:
             files = [e["file"] for e in (w.get("edits") or [w])]
-        okc, errs = compiles(tree, files)
-        if not okc:
-            return "fail", "witness no longer compiles with the build's warning flags: " + errs
+        if not w.get("patch"):
+            # hand-written witnesses must keep compiling with the build's warning flags; the seeded patches were
+            # built with the real tool chain and passed the test suite (seeded/confirm.py), which is the stronger check
+            okc, errs = compiles(tree, files)
+            if not okc:
+                return "fail", "witness no longer compiles with the build's warning flags: " + errs
         try:
             prog = load_program(tree, save_tree=False, jobs=4)
             ctx = run_rules(prop, prog, tree, "quick")
